@@ -33,8 +33,64 @@ def groups(n, seed):
     return gs
 
 
+class _Lin(__import__("pygradflow.problem", fromlist=["Problem"]).Problem):
+    def __init__(self, g, lb, ub):
+        self.g = np.array(g, dtype=float)
+        super().__init__(np.array(lb, dtype=float), np.array(ub, dtype=float), num_cons=0)
+
+    def obj(self, x):
+        return float(self.g @ x)
+
+    def obj_grad(self, x):
+        return self.g.copy()
+
+    def lag_hess(self, x, y):
+        import scipy.sparse as sps
+        return sps.coo_matrix((x.size, x.size))
+
+
+def replay_tau(chk):
+    """TauRule.tla: every case through NewtonController.compute_tau for the Smallest/Largest active-set rules."""
+    from pygradflow.iterate import Iterate
+    from pygradflow.params import ActiveSetType, Params
+    from pygradflow.step.step_control import step_controller
+
+    states = chk.mc_dump("TauRule.cfg", "TauRuleMC.tla")
+    if states is None:
+        return
+    INF = 1000
+
+    def fv(v):
+        return np.inf if v >= INF else (-np.inf if v <= -INF else float(v))
+
+    def q(p):
+        return np.inf if p[0] >= INF / 2 and p[1] <= 2 else p[0] / p[1]
+
+    for si, st in enumerate(states):
+        c, out = st["cs"], st["out"]
+        prob = _Lin(c["g"], [fv(v) for v in c["lb"]], [fv(v) for v in c["ub"]])
+        for rule, key in ((ActiveSetType.SmallestActiveSet, "smallest"), (ActiveSetType.LargestActiveSet, "largest")):
+            params = Params(active_set_type=rule)
+            it = Iterate(prob, params, np.array(c["x"], dtype=float), np.zeros(0))
+            chk.case(("tau", si, key))
+            try:
+                tau = step_controller(prob, params).compute_tau(it, 1.0)
+            except Exception as e:  # noqa
+                chk.kernel_violation(("tau.exception", key, type(e).__name__), {"case": {k: list(v) for k, v in c.items()}, "error": str(e)[:120]})
+                continue
+            exp = q(out[key])
+            ok = (np.isinf(exp) and np.isinf(tau)) or (np.isfinite(exp) and abs(tau - exp) <= 1e-12 * max(1.0, abs(exp)))
+            if not ok or not (tau > 0):
+                if tau > 0 and np.isfinite(tau):
+                    chk.drift["tau.value." + key] = chk.drift.get("tau.value." + key, 0) + 1
+                else:
+                    chk.kernel_violation(("tau.not.positive", key), {"case": {k: list(v) for k, v in c.items()}, "tau": float(tau)})
+    chk.traces += len(states)
+
+
 def main():
     chk = Check("C06")
+    replay_tau(chk)
     chk.mc("GF_small.cfg" if chk.thorough else "GF_q_small.cfg")
     chk.tv(groups(4000 if chk.thorough else 160, chk.seed), "C06 sweep")
     return chk.finish(rule="randomised sweep of the configuration product (Newton x step solver x linear solver x controller x "
